@@ -464,16 +464,21 @@ def assemble_text(src, canary, repo, line0):
     items = []
     includes = []
     pos = 0
-    rx = re.compile(r"^//@include[ \t]+(\S+)[ \t]*$|/\*@extract[ \t]+(.*?)@\*/|^//@generate[ \t]+(\w+)[ \t]*$", re.S | re.M)
+    rx = re.compile(r"^//@include[ \t]+(\S+)[ \t]*$|/\*@extract[ \t]+(.*?)@\*/|^//@generate[ \t]+(\w+)([ \t]+[^\n]*)?$", re.S | re.M)
     for m in rx.finditer(src):
         out_parts.append(src[pos:m.start()])
         pos = m.end()
         if m.group(3):
             import generators
             try:
-                out_parts.append(generators.GENERATORS[m.group(3)]())
+                gen = generators.GENERATORS[m.group(3)](*((m.group(4) or "").split()))
             except generators.GenError as e:
                 raise AssembleError("generator %s: %s" % (m.group(3), e))
+            # generated text may itself carry extraction directives (record codecs): expand them
+            sub, info = assemble_text(gen, canary, repo, line0 + "".join(out_parts).count("\n"))
+            out_parts.append(sub)
+            items.extend(info["items"])
+            includes.extend(info["includes"])
         elif m.group(1):
             p = os.path.join(VERIF, m.group(1))
             includes.append(m.group(1))
